@@ -328,6 +328,7 @@ def handle (toks : List String) : Option String :=
     | some ts => some (doHist ts steps)
     | none => some "bad-op"
   | "c14.survey" :: _ => some "oracle-only"
+  | "c14.conc" :: _ => some "oracle-only"
   | "c14.tramp" :: _ => some "oracle-only"
   | "c14.gen" :: fs :: _ =>
     match parseNat fs with
